@@ -232,6 +232,14 @@ func (fg *FnGen) call(fr *Frame, x *ssa.Call, st *State, reach *Term) *State {
 }
 
 func (fg *FnGen) deferredCall(fr *Frame, d *ssa.Defer, st *State, reach *Term) *State {
+	if fg.ct != nil && fg.ct.Options["defer_neutral"] != "" && fr.top {
+		if dc := fg.describeCall(d.Common()); dc.full == "dynamic" {
+			// option defer_neutral: a deferred clean-up closure (span end, unlock, release) obtained from a helper is assumed not
+			// to touch the objects this function's contract talks about
+			fg.g.useTrusted("deferred clean-up closures are heap-neutral in " + fg.name + " (option defer_neutral)")
+			return st
+		}
+	}
 	_, st2 := fg.doCall(fr, d, d.Common(), st, reach, d.Pos(), "defer_"+fmt.Sprint(len(fr.defers)))
 	return st2
 }
